@@ -213,6 +213,58 @@ class Ctx:
             return False
         return True
 
+    def explore_machine(self, name, make_machine, max_examples, steps=40, shrink_s=None, budget_s=None):
+        """Drive a hypothesis RuleBasedStateMachine.  `make_machine(ctx, state)` returns the machine class;
+        the machine records its history in `state["hist"]` and calls `state["on_fail"](violation)` itself
+        (through Ctx.machine_step).  The shortest failing history becomes the replay file."""
+        import hypothesis
+        from hypothesis import settings, HealthCheck, Phase, seed
+        from hypothesis.stateful import run_state_machine_as_test
+        if shrink_s is None:
+            shrink_s = 30 if self.tier == "quick" else 240
+        if budget_s is None:
+            budget_s = float(os.environ.get("VERIF_BUDGET_S", 150 if self.tier == "quick" else 3000))
+        state = {"best": None, "best_v": None, "first_fail_t": None, "t_start": time.time(), "shrink_s": shrink_s,
+                 "budget_s": budget_s, "name": name}
+        Machine = make_machine(self, state)
+        st_ = settings(max_examples=max_examples, stateful_step_count=steps, database=None, deadline=None,
+                       derandomize=False, report_multiple_bugs=False, print_blob=False,
+                       suppress_health_check=list(HealthCheck), phases=[Phase.generate, Phase.shrink])
+        try:
+            run_state_machine_as_test(seed(self.hseed(name))(Machine), settings=st_)
+        except Violation:
+            pass
+        except hypothesis.errors.HypothesisException as e:
+            if state["best"] is None:
+                raise HarnessError(f"hypothesis error in {name}: {type(e).__name__}: {e}")
+        except BaseException:
+            if state["best"] is None:
+                raise
+        if state["best"] is not None:
+            v = state["best_v"]
+            self.failures.append({"kind": v.kind, "detail": v.detail, "case": state["best"]})
+            return False
+        return True
+
+    def machine_active(self, state):
+        """False once the shrink budget (after a first failure) or the run budget is used up: the machine
+        then turns its rules into no-ops so that hypothesis finishes quickly."""
+        now = time.time()
+        if state["first_fail_t"] is not None:
+            return now - state["first_fail_t"] <= state["shrink_s"]
+        return now - state["t_start"] <= state["budget_s"]
+
+    def machine_failed(self, state, case, v):
+        kid = self.known.match(self.open_known, self.prop, case, v)
+        if kid is not None:
+            self.known_hits[kid] += 1
+            return False
+        if state["first_fail_t"] is None:
+            state["first_fail_t"] = time.time()
+        if state["best"] is None or len(json.dumps(case)) <= len(json.dumps(state["best"])):
+            state["best"], state["best_v"] = jsonable(case), v
+        return True
+
     def fail(self, case, v):
         """Record a failure found outside hypothesis (enumerations)."""
         kid = self.known.match(self.open_known, self.prop, case, v)
